@@ -1185,7 +1185,8 @@ class MinLeakageIASolver(IterativeIASolverBaseClass):
         for k in range(self.K):
             Qk = self.calc_Q(k)
             [V, _] = leig(Qk, self.Ns[k])
-            Uk[k] = V
+            # Unit Frobenius norm, also for more than one stream
+            Uk[k] = V / np.linalg.norm(V, 'fro')
         return Uk
 
     def _calc_Uk_all_k_rev(self) -> np.ndarray:
@@ -1202,7 +1203,8 @@ class MinLeakageIASolver(IterativeIASolverBaseClass):
         for k in range(self.K):
             Qk_rev = self.calc_Q_rev(k)
             [V, _] = leig(Qk_rev, self.Ns[k])
-            Uk_rev[k] = V
+            # Unit Frobenius norm, also for more than one stream
+            Uk_rev[k] = V / np.linalg.norm(V, 'fro')
         return Uk_rev
 
     def _updateF(self) -> None:
